@@ -1648,14 +1648,15 @@ class GroupLasso(LinearModel, RegressorMixin):
         self : Instance of GroupLasso
             Fitted estimator.
         """
-        grp_indices, grp_ptr = grp_converter(self.groups, X.shape[1])
+        n_features_in = np.shape(X)[1]  # X may still be a list here
+        grp_indices, grp_ptr = grp_converter(self.groups, n_features_in)
         group_sizes = np.diff(grp_ptr)
 
         n_features = np.sum(group_sizes)
-        if X.shape[1] != n_features:
+        if n_features_in != n_features:
             raise ValueError(
                 "The total number of group members must equal the number of features. "
-                f"Got {n_features}, expected {X.shape[1]}.")
+                f"Got {n_features}, expected {n_features_in}.")
 
         weights = np.ones(len(group_sizes)) if self.weights is None else self.weights
         group_penalty = WeightedGroupL2(alpha=self.alpha, grp_ptr=grp_ptr,
